@@ -159,105 +159,231 @@ func c06r3(c *an.Ctx) {
 	a := A(c)
 	mr := c.Fn("drpcmanager", "(*Manager).manageReader")
 	sbufWait := a.obj("drpcmanager", "(*streamBuffer).Wait")
+	readPkt := a.obj("drpcwire", "(*Reader).ReadPacketUsing")
 	idStream := a.field("drpcwire", "ID", "Stream")
+	pktKind := a.field("drpcwire", "Packet", "Kind")
 	pkts := a.field("drpcmanager", "Manager", "pkts")
 	kinds := kindConsts(c)
 	isPktStream := func(v ssa.Value) bool {
 		p := an.PathOf(v)
 		return len(p.Fields) >= 2 && p.Fields[len(p.Fields)-1].Origin() == idStream.Origin() && nameOf(p.Fields[len(p.Fields)-2]) == "ID"
 	}
-	n := 0
-	for _, cs := range an.CallsTo(mr, false, sbufWait) {
-		n++
-		var tracked ssa.Value
-		for _, g := range an.GuardsOf(cs.Instr.Block()) {
-			bin, ok := g.Cond.(*ssa.BinOp)
-			if !ok || (bin.Op != token.EQL && bin.Op != token.NEQ) {
-				continue
-			}
-			eq := g.True == (bin.Op == token.EQL)
-			if !eq {
-				continue
-			}
-			if isPktStream(bin.X) {
-				tracked = bin.Y
-			} else if isPktStream(bin.Y) {
-				tracked = bin.X
-			}
+	// The reader handles one packet per iteration. What a path knows about that packet -- its kind, and whether its
+	// stream id equals the recorded id of the last forwarded invoke -- is tracked as knowledge (reset when the next
+	// packet is read), so that it does not matter where the tests are written (in the loop, in a helper that
+	// returns a flag, twice).
+	isKindTest := func(v ssa.Value) (kind int64, eq bool, ok bool) {
+		b, isB := v.(*ssa.BinOp)
+		if !isB || (b.Op != token.EQL && b.Op != token.NEQ) {
+			return 0, false, false
 		}
-		if !c.Check(tracked != nil, "manageReader | streamBuffer.Wait guarded by pkt.ID.Stream == <id of the forwarded invoke>", c.At(cs.Instr), "",
-			"the reader parks until a stream is created for ANY higher id: a non-invoke packet whose invoke was never forwarded (e.g. a soft cancel written before the invoke) wedges the connection") {
-			continue
+		x, y := b.X, b.Y
+		if _, isC := x.(*ssa.Const); isC {
+			x, y = y, x
 		}
-		// provenance of the tracked id: constants, itself, or pkt.ID.Stream recorded for a KindInvoke packet that is forwarded on m.pkts
-		seen := map[ssa.Value]bool{}
-		var bad []string
-		var walk func(v ssa.Value)
-		walk = func(v ssa.Value) {
-			if seen[v] {
+		k, isK := an.ConstInt(y)
+		if !isK || !isLoadOfField(x, pktKind) {
+			return 0, false, false
+		}
+		return k, b.Op == token.EQL, true
+	}
+	var idTests []*ssa.BinOp // pkt.ID.Stream ==/!= <tracked id>
+	for _, fn := range extendedBody(mr) {
+		an.Instrs(fn, func(in ssa.Instruction) {
+			b, ok := in.(*ssa.BinOp)
+			if !ok || (b.Op != token.EQL && b.Op != token.NEQ) {
 				return
 			}
-			seen[v] = true
-			switch x := v.(type) {
-			case *ssa.Phi:
-				for _, e := range x.Edges {
-					walk(e)
+			if isPktStream(b.X) != isPktStream(b.Y) { // one side is the packet's stream id, the other the remembered one
+				other := b.Y
+				if isPktStream(b.Y) {
+					other = b.X
 				}
-			case *ssa.Const:
-			case *ssa.UnOp:
-				// a local kept in memory (its address is handed to a helper): every store to it counts
-				if al, isAl := x.X.(*ssa.Alloc); isAl && x.Op == token.MUL {
-					for _, ref := range *al.Referrers() {
-						switch r := ref.(type) {
-						case *ssa.Store:
-							if r.Addr == al {
-								walk(r.Val)
-							} else {
-								bad = append(bad, "address of the local escapes at "+c.P.InstrPos(r))
-							}
-						case *ssa.UnOp, *ssa.DebugRef:
-						default:
-							bad = append(bad, "address of the local escapes at "+c.P.InstrPos(ref))
-						}
-					}
-					return
+				if call, isCall := other.(*ssa.Call); isCall && call.Common().StaticCallee() != nil && call.Common().StaticCallee().Name() == "ID" {
+					return // comparison with the current stream's id: a different test
 				}
-				rv := an.Resolve(v)
-				if rv != v {
-					walk(rv)
-					return
-				}
-				if isPktStream(v) {
-					in, _ := v.(ssa.Instruction)
-					if in != nil && guardedByKind(in.Block(), kinds["KindInvoke"], true) && leadsToForward(in, pkts) {
-						return
-					}
-					bad = append(bad, "pkt.ID.Stream recorded at "+c.P.InstrPos(in)+" without a KindInvoke guard / without forwarding the packet")
-					return
-				}
-				bad = append(bad, "unrecognised source "+an.R(v))
-			default:
-				rv := an.Resolve(v)
-				if rv != v {
-					walk(rv)
-					return
-				}
-				if isPktStream(v) {
-					in, _ := v.(ssa.Instruction)
-					if in != nil && guardedByKind(in.Block(), kinds["KindInvoke"], true) && leadsToForward(in, pkts) {
-						return
-					}
-					bad = append(bad, "pkt.ID.Stream recorded at "+c.P.InstrPos(in)+" without a KindInvoke guard / without forwarding the packet")
-					return
-				}
-				bad = append(bad, "unrecognised source "+an.R(v))
+				idTests = append(idTests, b)
+			}
+		})
+	}
+	isIDTest := func(v ssa.Value) (*ssa.BinOp, bool) {
+		for _, b := range idTests {
+			if v == ssa.Value(b) {
+				return b, true
 			}
 		}
-		walk(tracked)
-		c.Check(len(bad) == 0, "manageReader | the awaited id is recorded only from forwarded KindInvoke packets", c.At(cs.Instr), "",
-			"the id the reader waits for can come from a packet that does not create a stream: "+fmt.Sprint(bad))
+		return nil, false
 	}
-	c.Floor("streamBuffer.Wait calls in manageReader", 1, n)
+	set := func(st, key, val string) (string, bool) {
+		other := "T"
+		if val == "T" {
+			other = "F"
+		}
+		if hasTag(st, key+"="+other) {
+			return st, false
+		}
+		return addTag(st, key+"="+val), true
+	}
+	flow := &an.Flow{Fn: mr, Inline: an.InlineSamePackage(mr), Init: []string{""},
+		Step: func(st string, in ssa.Instruction) []string {
+			if call, ok := in.(*ssa.Call); ok && an.IsCallTo(call.Common(), readPkt) {
+				if st != "" {
+					return []string{""} // a new packet: nothing is known about it
+				}
+			}
+			return nil
+		},
+		Branch: func(st string, br *ssa.If, idx int) (string, bool) {
+			cond, neg := an.StripNot(br.Cond)
+			onTrue := (idx == 0) != neg
+			if k, eq, ok := isKindTest(cond); ok {
+				val := "F"
+				if onTrue == eq {
+					val = "T"
+				}
+				ns, feasible := set(st, fmt.Sprintf("kind%d", k), val)
+				if !feasible {
+					return st, false
+				}
+				if val == "T" { // the kind is this one, so it is no other
+					for _, o := range []string{"KindInvoke", "KindInvokeMetadata"} {
+						if kinds[o] != k {
+							if ns2, f2 := set(ns, fmt.Sprintf("kind%d", kinds[o]), "F"); f2 {
+								ns = ns2
+							} else {
+								return st, false
+							}
+						}
+					}
+				}
+				return ns, true
+			}
+			if b, ok := isIDTest(cond); ok {
+				val := "F"
+				if onTrue == (b.Op == token.EQL) {
+					val = "T"
+				}
+				return set(st, "ideq", val)
+			}
+			return st, true
+		},
+	}
+	res := flow.Run()
+	n := 0
+	var tracked []ssa.Value
+	for _, fn := range extendedBody(mr) {
+		for _, cs := range an.CallsTo(fn, false, sbufWait) {
+			n++
+			okAll := true
+			sts := res.BeforeF(cs.Instr)
+			if fn != mr {
+				continue // reached through inlining from manageReader: judged at the states carried into it
+			}
+			for _, sf := range sts {
+				ok := hasTag(sf.User, "ideq=T")
+				for _, b := range idTests {
+					f := sf.FactOf(b)
+					if (f == 'T') == (b.Op == token.EQL) && (f == 'T' || f == 'F') {
+						ok = true
+					}
+				}
+				if !ok {
+					okAll = false
+				}
+			}
+			if len(sts) == 0 {
+				okAll = false
+			}
+			c.Check(okAll, "manageReader | streamBuffer.Wait guarded by pkt.ID.Stream == <id of the forwarded invoke>", c.At(cs.Instr), "",
+				"the reader parks until a stream is created for ANY higher id: a non-invoke packet whose invoke was never forwarded (e.g. a soft cancel written before the invoke) wedges the connection")
+		}
+	}
+	for _, b := range idTests {
+		if isPktStream(b.X) {
+			tracked = append(tracked, b.Y)
+		} else {
+			tracked = append(tracked, b.X)
+		}
+	}
+	if !c.Floor("streamBuffer.Wait calls in manageReader", 1, n) || len(tracked) == 0 {
+		return
+	}
+	// provenance of the tracked id: constants, itself, or pkt.ID.Stream recorded for a KindInvoke packet that is forwarded on m.pkts
+	invokeKnown := func(in ssa.Instruction) bool {
+		if guardedByKind(in.Block(), kinds["KindInvoke"], true) {
+			return true
+		}
+		sts := res.Before(in)
+		if len(sts) == 0 {
+			return false
+		}
+		for _, st := range sts {
+			if !hasTag(st, fmt.Sprintf("kind%d=T", kinds["KindInvoke"])) {
+				return false
+			}
+		}
+		return true
+	}
+	seen := map[ssa.Value]bool{}
+	var bad []string
+	var walk func(v ssa.Value)
+	walk = func(v ssa.Value) {
+		if seen[v] {
+			return
+		}
+		seen[v] = true
+		switch x := v.(type) {
+		case *ssa.Phi:
+			for _, e := range x.Edges {
+				walk(e)
+			}
+		case *ssa.Const:
+		case *ssa.UnOp:
+			// a local kept in memory (its address is handed to a helper): every store to it counts
+			if al, isAl := x.X.(*ssa.Alloc); isAl && x.Op == token.MUL {
+				for _, ref := range *al.Referrers() {
+					switch r := ref.(type) {
+					case *ssa.Store:
+						if r.Addr == al {
+							walk(r.Val)
+						} else {
+							bad = append(bad, "address of the local escapes at "+c.P.InstrPos(r))
+						}
+					case *ssa.UnOp, *ssa.DebugRef:
+					default:
+						bad = append(bad, "address of the local escapes at "+c.P.InstrPos(ref))
+					}
+				}
+				return
+			}
+			rv := an.Resolve(v)
+			if rv != v {
+				walk(rv)
+				return
+			}
+			if isPktStream(v) {
+				in, _ := v.(ssa.Instruction)
+				if in != nil && invokeKnown(in) && leadsToForward(in, pkts) {
+					return
+				}
+				bad = append(bad, "pkt.ID.Stream recorded at "+c.P.InstrPos(in)+" without a KindInvoke guard / without forwarding the packet")
+				return
+			}
+			bad = append(bad, "unrecognised source "+an.R(v))
+		default:
+			rv := an.Resolve(v)
+			if rv != v {
+				walk(rv)
+				return
+			}
+			bad = append(bad, "unrecognised source "+an.R(v))
+		}
+	}
+	for _, t := range tracked {
+		walk(t)
+	}
+	c.Check(len(bad) == 0, "manageReader | the awaited id is recorded only from forwarded KindInvoke packets", c.P.Pos(mr.Pos()), "",
+		"the id the reader waits for can come from a packet that does not create a stream: "+fmt.Sprint(bad))
 }
 
 // leadsToForward: every path from the instruction reaches the select that sends on m.pkts
